@@ -13,6 +13,9 @@ from pathlib import Path
 
 import numpy as np
 
+sys.path.insert(0, str(Path(__file__).resolve().parent))
+from indep import decode_indep  # noqa: E402
+
 from sedpack.io import Dataset, Metadata, DatasetStructure, Attribute
 from sedpack.io.dataset_filler import DatasetFiller
 from sedpack.io.flatbuffer import IterateShardFlatBuffer
@@ -107,7 +110,7 @@ def dump_tree(ds, root, rel, problems, seen_shards):
             ex = []
         else:
             try:
-                ex = decode(ds, full)
+                ex = decode_indep(ds, full)
             except Exception as e:  # noqa: BLE001
                 problems.append(f"{rel}: shard {p} undecodable {type(e).__name__}")
                 ex = []
@@ -195,14 +198,21 @@ def run_history(h, tmp):
         compression="", examples_per_shard=h["eps"], hash_checksum_algorithms=tuple(h.get("algs", ("sha256",)))))
     out = []
     base = 0
-    for s in h["sessions"]:
+    early = None        # a filler object constructed (not entered) before the previous session ran
+    for si, s in enumerate(h["sessions"]):
         err, raised = None, None
         if s.get("reopen"):
             ds = Dataset(root)
+            early = None
+        nxt = h["sessions"][si + 1] if si + 1 < len(h["sessions"]) else None
+        mine, early = early, None
+        if nxt is not None and nxt.get("early") and nxt["kind"] == "filler" and not nxt.get("reopen"):
+            nsub = Path(*[f"d{x}" for x in nxt["sub"]]) if nxt["sub"] else Path(".")
+            early = DatasetFiller(ds, relative_path_from_split=nsub)
         try:
             if s["kind"] == "filler":
                 sub = Path(*[f"d{x}" for x in s["sub"]]) if s["sub"] else Path(".")
-                with DatasetFiller(ds, relative_path_from_split=sub) as f:
+                with (mine if mine is not None and s.get("early") else DatasetFiller(ds, relative_path_from_split=sub)) as f:
                     raised = apply_ops(f, s["ops"], base)
                 base += 100
             else:
